@@ -160,9 +160,9 @@ Cond/Prec.vos Cond/Prec.vok Cond/Prec.required_vos: Cond/Prec.v Gen/BindingPower
 Cond/PrecProofs.vo Cond/PrecProofs.glob Cond/PrecProofs.v.beautified Cond/PrecProofs.required_vo: Cond/PrecProofs.v Gen/BindingPower.vo Gen/DocPrecedence.vo Cond/Prec.vo
 Cond/PrecProofs.vio: Cond/PrecProofs.v Gen/BindingPower.vio Gen/DocPrecedence.vio Cond/Prec.vio
 Cond/PrecProofs.vos Cond/PrecProofs.vok Cond/PrecProofs.required_vos: Cond/PrecProofs.v Gen/BindingPower.vos Gen/DocPrecedence.vos Cond/Prec.vos
-Cond/Quirks.vo Cond/Quirks.glob Cond/Quirks.v.beautified Cond/Quirks.required_vo: Cond/Quirks.v Cond/Syntax.vo Cond/Sem.vo
-Cond/Quirks.vio: Cond/Quirks.v Cond/Syntax.vio Cond/Sem.vio
-Cond/Quirks.vos Cond/Quirks.vok Cond/Quirks.required_vos: Cond/Quirks.v Cond/Syntax.vos Cond/Sem.vos
+Cond/Quirks.vo Cond/Quirks.glob Cond/Quirks.v.beautified Cond/Quirks.required_vo: Cond/Quirks.v Cond/Syntax.vo Cond/Sem.vo Gen/FoldFacts.vo
+Cond/Quirks.vio: Cond/Quirks.v Cond/Syntax.vio Cond/Sem.vio Gen/FoldFacts.vio
+Cond/Quirks.vos Cond/Quirks.vok Cond/Quirks.required_vos: Cond/Quirks.v Cond/Syntax.vos Cond/Sem.vos Gen/FoldFacts.vos
 Cond/QuirksProofs.vo Cond/QuirksProofs.glob Cond/QuirksProofs.v.beautified Cond/QuirksProofs.required_vo: Cond/QuirksProofs.v Cond/Syntax.vo Cond/Sem.vo Cond/SemProofs.vo Cond/Quirks.vo
 Cond/QuirksProofs.vio: Cond/QuirksProofs.v Cond/Syntax.vio Cond/Sem.vio Cond/SemProofs.vio Cond/Quirks.vio
 Cond/QuirksProofs.vos Cond/QuirksProofs.vok Cond/QuirksProofs.required_vos: Cond/QuirksProofs.v Cond/Syntax.vos Cond/Sem.vos Cond/SemProofs.vos Cond/Quirks.vos
@@ -292,6 +292,9 @@ Gen/FmtComments.vos Gen/FmtComments.vok Gen/FmtComments.required_vos: Gen/FmtCom
 Gen/FmtRules.vo Gen/FmtRules.glob Gen/FmtRules.v.beautified Gen/FmtRules.required_vo: Gen/FmtRules.v Fmt/Tokens.vo Gen/FmtCats.vo Fmt/Processor.vo Fmt/Bubble.vo Fmt/Pipeline.vo
 Gen/FmtRules.vio: Gen/FmtRules.v Fmt/Tokens.vio Gen/FmtCats.vio Fmt/Processor.vio Fmt/Bubble.vio Fmt/Pipeline.vio
 Gen/FmtRules.vos Gen/FmtRules.vok Gen/FmtRules.required_vos: Gen/FmtRules.v Fmt/Tokens.vos Gen/FmtCats.vos Fmt/Processor.vos Fmt/Bubble.vos Fmt/Pipeline.vos
+Gen/FoldFacts.vo Gen/FoldFacts.glob Gen/FoldFacts.v.beautified Gen/FoldFacts.required_vo: Gen/FoldFacts.v 
+Gen/FoldFacts.vio: Gen/FoldFacts.v 
+Gen/FoldFacts.vos Gen/FoldFacts.vok Gen/FoldFacts.required_vos: Gen/FoldFacts.v 
 Gen/FoldGen.vo Gen/FoldGen.glob Gen/FoldGen.v.beautified Gen/FoldGen.required_vo: Gen/FoldGen.v 
 Gen/FoldGen.vio: Gen/FoldGen.v 
 Gen/FoldGen.vos Gen/FoldGen.vok Gen/FoldGen.required_vos: Gen/FoldGen.v 
@@ -304,6 +307,9 @@ Gen/HoistGen.vos Gen/HoistGen.vok Gen/HoistGen.required_vos: Gen/HoistGen.v
 Gen/HostFns.vo Gen/HostFns.glob Gen/HostFns.v.beautified Gen/HostFns.required_vo: Gen/HostFns.v Cond/HostTypes.vo
 Gen/HostFns.vio: Gen/HostFns.v Cond/HostTypes.vio
 Gen/HostFns.vos Gen/HostFns.vok Gen/HostFns.required_vos: Gen/HostFns.v Cond/HostTypes.vos
+Gen/JumpCoalesce.vo Gen/JumpCoalesce.glob Gen/JumpCoalesce.v.beautified Gen/JumpCoalesce.required_vo: Gen/JumpCoalesce.v 
+Gen/JumpCoalesce.vio: Gen/JumpCoalesce.v 
+Gen/JumpCoalesce.vos Gen/JumpCoalesce.vok Gen/JumpCoalesce.required_vos: Gen/JumpCoalesce.v 
 Gen/ModCaps.vo Gen/ModCaps.glob Gen/ModCaps.v.beautified Gen/ModCaps.required_vo: Gen/ModCaps.v 
 Gen/ModCaps.vio: Gen/ModCaps.v 
 Gen/ModCaps.vos Gen/ModCaps.vok Gen/ModCaps.required_vos: Gen/ModCaps.v 
@@ -475,6 +481,12 @@ Pat/ChainRun.vos Pat/ChainRun.vok Pat/ChainRun.required_vos: Pat/ChainRun.v Pat/
 Pat/ChainRunProofs.vo Pat/ChainRunProofs.glob Pat/ChainRunProofs.v.beautified Pat/ChainRunProofs.required_vo: Pat/ChainRunProofs.v Gen/PatConsts.vo Pat/Syntax.vo Pat/Sem.vo Pat/Matcher.vo Pat/MatcherProofs.vo Pat/Modifiers.vo Pat/MatchList.vo Pat/MatchListProofs.vo Pat/Atoms.vo Pat/Pipeline.vo Pat/PipelineProofs.vo Pat/Chain.vo Pat/ChainProofs.vo Pat/ChainRun.vo
 Pat/ChainRunProofs.vio: Pat/ChainRunProofs.v Gen/PatConsts.vio Pat/Syntax.vio Pat/Sem.vio Pat/Matcher.vio Pat/MatcherProofs.vio Pat/Modifiers.vio Pat/MatchList.vio Pat/MatchListProofs.vio Pat/Atoms.vio Pat/Pipeline.vio Pat/PipelineProofs.vio Pat/Chain.vio Pat/ChainProofs.vio Pat/ChainRun.vio
 Pat/ChainRunProofs.vos Pat/ChainRunProofs.vok Pat/ChainRunProofs.required_vos: Pat/ChainRunProofs.v Gen/PatConsts.vos Pat/Syntax.vos Pat/Sem.vos Pat/Matcher.vos Pat/MatcherProofs.vos Pat/Modifiers.vos Pat/MatchList.vos Pat/MatchListProofs.vos Pat/Atoms.vos Pat/Pipeline.vos Pat/PipelineProofs.vos Pat/Chain.vos Pat/ChainProofs.vos Pat/ChainRun.vos
+Pat/Jumps.vo Pat/Jumps.glob Pat/Jumps.v.beautified Pat/Jumps.required_vo: Pat/Jumps.v Gen/JumpCoalesce.vo Pat/Syntax.vo
+Pat/Jumps.vio: Pat/Jumps.v Gen/JumpCoalesce.vio Pat/Syntax.vio
+Pat/Jumps.vos Pat/Jumps.vok Pat/Jumps.required_vos: Pat/Jumps.v Gen/JumpCoalesce.vos Pat/Syntax.vos
+Pat/JumpsProofs.vo Pat/JumpsProofs.glob Pat/JumpsProofs.v.beautified Pat/JumpsProofs.required_vo: Pat/JumpsProofs.v Gen/JumpCoalesce.vo Pat/Syntax.vo Pat/Sem.vo Pat/Matcher.vo Pat/MatcherProofs.vo Pat/Jumps.vo
+Pat/JumpsProofs.vio: Pat/JumpsProofs.v Gen/JumpCoalesce.vio Pat/Syntax.vio Pat/Sem.vio Pat/Matcher.vio Pat/MatcherProofs.vio Pat/Jumps.vio
+Pat/JumpsProofs.vos Pat/JumpsProofs.vok Pat/JumpsProofs.required_vos: Pat/JumpsProofs.v Gen/JumpCoalesce.vos Pat/Syntax.vos Pat/Sem.vos Pat/Matcher.vos Pat/MatcherProofs.vos Pat/Jumps.vos
 Pat/MatchList.vo Pat/MatchList.glob Pat/MatchList.v.beautified Pat/MatchList.required_vo: Pat/MatchList.v Gen/PatConsts.vo
 Pat/MatchList.vio: Pat/MatchList.v Gen/PatConsts.vio
 Pat/MatchList.vos Pat/MatchList.vok Pat/MatchList.required_vos: Pat/MatchList.v Gen/PatConsts.vos
